@@ -174,6 +174,14 @@ example : WellFormed sample ∧ NamesConsistent sample := by decide
 example : NamesConsistent ⟨(1, 0, 0), .lam ⟨"i_0", 0⟩ (.lam ⟨"i_1", 1⟩ (.app (.var ⟨"i_0", 0⟩) (.var ⟨"i_1", 1⟩)))⟩ := by
   decide
 
+/-- why `WellFormed` excludes names that start with `--` (although `ident()` accepts them): once a line
+break follows — and the real layout breaks lines — the name is read as a comment -/
+example : lex "(lam --x\n y)".toList = some [.lpar, .word ['l', 'a', 'm'], .ws, .word ['y'], .rpar] ∧
+    lex "(lam --x y)".toList = some [.lpar, .word ['l', 'a', 'm'], .ws, .word ['-', '-', 'x'], .ws, .word ['y'], .rpar] := by
+  decide
+
+example : ¬ WellFormed ⟨(1, 0, 0), .lam ⟨"--x", 0⟩ (.var ⟨"--x", 0⟩)⟩ := by decide
+
 /-- the hypothesis `NamesConsistent` is needed: `(lam x₀ (lam x₁ x₀))` with equal texts is well-formed,
 prints as `(lam x (lam x x))`, and parses back as a program in which the variable refers to the *inner*
 binder — not α-equivalent -/
